@@ -250,6 +250,22 @@ def gen_data(rng, kind, N, cplx):
         for n in range(N):
             x[n] = e[n] - a1 * (x[n - 1] if n >= 1 else 0) - a2 * (x[n - 2] if n >= 2 else 0)
         return x
+    if kind == 'shape':
+        # legitimate records of an unusual SHAPE: constant, a single non-zero sample, alternating signs (exactly zero mean), purely imaginary
+        k = int(rng.integers(0, 5)); c = float(rng.choice([5.0, -0.5, 2.0, 1e-3, 300.0]))
+        if k == 0:
+            x = np.full(N, c)
+        elif k == 1:
+            x = np.zeros(N); x[int(rng.integers(0, N))] = c
+        elif k == 2:
+            x = c * (-1.0) ** t + (0.0 if N % 2 == 0 else 0.0)
+        elif k == 3:
+            x = np.full(N, c) ; x[::2] = -c; x = x - np.mean(x)
+        else:
+            x = np.real(noise()) * 1.0
+        if cplx:
+            x = x * [1j, (2 - 1j), 1.0][int(rng.integers(0, 3))] + 0j
+        return x
     raise ValueError(kind)
 
 
@@ -370,7 +386,7 @@ def run(ctx):
 
     # ---------------- property-directed search on the implementation
     nsearch = ctx.q(260, 6000)
-    kinds = ['noise', 'tones', 'trend', 'int', 'ar']
+    kinds = ['noise', 'tones', 'trend', 'int', 'ar', 'shape']
     for it in range(nsearch):
         kind = kinds[it % len(kinds)]
         cplx = bool(rng.integers(0, 2))
